@@ -3,6 +3,7 @@
 package main
 
 import (
+	"encoding/json"
 	"math"
 
 	aspect_elimination "github.com/Azbesciak/RealDecisionMaker/lib/logic/limited-rationality/aspect-elimination"
@@ -225,6 +226,8 @@ func init() {
 				heurSeriesCase(o, r, c)
 			case k < 80:
 				heurThresholdsCase(o, r, c)
+			case k < 90:
+				heurAfterBiasCase(o, r, c)
 			default:
 				heurEvaluateFullCase(o, r, c)
 			}
@@ -400,4 +403,98 @@ func heurEvaluateFullCase(o *Out, r *Rng, c int) {
 		o.Corr(m, L(A("satisfaction-evaluate-full"), dmpLine, Nums(draws(params.RandomSeed, heurDraws))),
 			okSX(resSX(msgEv, func() SX { return satEntriesSX(rk) })))
 	}
+}
+
+// the thresholds the heuristic generates AFTER biases ran must still be placed on the request's declared
+// ranges (or the range of the current alternatives): whole request through the real pipeline, levels
+// generated by the real source on the state that reached Evaluate, spec with the REQUEST's declared ranges
+func heurAfterBiasCase(o *Out, r *Rng, c int) {
+	sk := heurSeriesKinds[r.Intn(len(heurSeriesKinds))]
+	method := "aspectEliminationHeuristic"
+	if sk.dir == "dec" {
+		method = "satisfactionHeuristic"
+	}
+	q := genRequest(r, ReqOpts{Methods: []string{method}, Prob: ProbOpts{MaxAlt: 5, MaxCrit: 4, MinCrit: 2}})
+	for i, cj := range q.Body["criteria"].([]interface{}) { // declared ranges that are not of the form [0, M]
+		if r.chance(0.6) {
+			lo, hi := math.Inf(1), math.Inf(-1)
+			for _, a := range q.Problem.Known {
+				v := a.Criteria[q.Problem.Criteria[i].Id]
+				lo, hi = math.Min(lo, v), math.Max(hi, v)
+			}
+			cj.(J)["valuesRange"] = J{"min": lo - float64(r.rangeInt(1, 3)), "max": hi + float64(r.rangeInt(1, 3))}
+		}
+	}
+	coef, mx, mn := heurPickParams(r, sk.kind)
+	if !(coef >= 0.001 && coef <= 0.999) {
+		return
+	}
+	if _, ill := heurConditioning(sk.kind, coef, mx, mn); ill {
+		return
+	}
+	mp := q.Body["methodParameters"].(J)
+	mp["function"], mp["params"] = sk.fn, heurLevelsParams(coef, mx, mn)
+	var bl []interface{}
+	for i, nb := 0, r.rangeInt(1, 2); i < nb; i++ {
+		name := []string{"criteriaMixing", "criteriaConcealment", "fatigue", "preferenceReversal", "anchoring"}[r.Intn(5)]
+		if name == "criteriaMixing" && i > 0 {
+			name = "fatigue" // mixing after a state change is a registered C07 finding
+		}
+		pr := biasPropsJSON(r, name, q.Problem)
+		if name == "criteriaMixing" || name == "criteriaConcealment" {
+			pr["referenceCriterionType"] = "importanceRatio"
+			pr["newCriterionImportance"] = float64(r.Intn(5)) / 4
+		}
+		bl = append(bl, J{"name": name, "props": pr})
+	}
+	q.Body["biases"] = bl
+	js, _ := json.Marshal(q.Body)
+	var dm, fresh model.DecisionMaker
+	if json.Unmarshal(js, &dm) != nil || json.Unmarshal(js, &fresh) != nil {
+		return
+	}
+	tr := tracedDecide(&dm)
+	if tr.Err != "" || tr.Eval == nil {
+		o.count("after-bias-rejected")
+		return
+	}
+	dF := tr.Eval.Live
+	var fn string
+	var par interface{}
+	var sources []satisfaction_levels.SatisfactionLevelsSource
+	switch p := dF.MethodParameters.(type) {
+	case aspect_elimination.AspectEliminationHeuristicParams:
+		fn, par, sources = p.Function, p.Params, increasingSatisfactionLevels
+	case satisfaction.SatisfactionParameters:
+		fn, par, sources = p.Function, p.Params, decreasingSatisfactionLevels
+	default:
+		return
+	}
+	for _, cr := range dF.Criteria {
+		if cr.ValuesRange != nil && cr.ValuesRange.Max < cr.ValuesRange.Min {
+			// a concealed criterion created with a negative newCriterionScaling carries an inverted declared
+			// range (which request validation would reject): outside C14's "any criterion ranges"
+			o.count("out-of-domain:inverted-range-from-negative-scaling")
+			return
+		}
+	}
+	levels, msg, capped := heurGoLevels(sources, fn, par, dF)
+	if capped || len(levels) > 80 {
+		return
+	}
+	// criteria of the evaluated state, with the declared ranges as the REQUEST states them
+	declared := map[string]*utils.ValueRange{}
+	for _, cr := range fresh.Criteria {
+		declared[cr.Id] = cr.ValuesRange
+	}
+	crits := make(model.Criteria, len(dF.Criteria))
+	for i, cr := range dF.Criteria {
+		crits[i] = cr
+		if vr, ok := declared[cr.Id]; ok {
+			crits[i].ValuesRange = vr
+		}
+	}
+	m := Meta{Case: c, Stage: "check-c14-after-biases", Input: J{"request": q.Body}, Key: string(js), GoOut: levels}
+	o.Spec(m, L(A("check-c14"), A(sk.kind), Num(coef), Num(mx), Num(mn), critsSX(crits), altsSX(dF.AllAlternatives()), heurLevelsResSX(levels, msg)))
+	o.count("after-biases")
 }
